@@ -360,6 +360,19 @@ func runC17(c *Ctx) {
 		cf.Label = "ignore-analysis:" + p
 		confs = append(confs, cf)
 	}
+	// lists of two or three error-ignore rules, malformed ones (kept as literal-only rules) before and after well-formed ones
+	{
+		rp := root.Fork(0x6c697374)
+		pool := []string{"zoo1.lua", "sub/", "other/zoo4.lua", "sub/deep/", "syn.*lua", "sub/zo.*\\.lua", "*_gen.lua", "lib(.lua", "[gen.lua", "(", "nomatch/", "zoo[12]\\.lua", "deep/zoo3.lua"}
+		for i := 0; i < c.N(30, 600); i++ {
+			cf := c17AllOn()
+			for k := rp.Range(2, 3); k > 0; k-- {
+				cf.IgnoreErr = append(cf.IgnoreErr, rp.Pick(pool))
+			}
+			cf.Label = fmt.Sprintf("ignore-errors-list-%d", i)
+			confs = append(confs, cf)
+		}
+	}
 	// per-file type rules: one to three rules on different files naming different types (luahelper.json only)
 	{
 		var rels []string
@@ -424,7 +437,7 @@ func runC17(c *Ctx) {
 			continue
 		}
 		jobs = append(jobs, job{cf, "init"}, job{cf, "change"})
-		if cf.IgnoreErr == nil || (cf.IgnoreErr[0] != "(" && cf.IgnoreErr[0] != "[" && cf.IgnoreErr[0] != "*") {
+		if len(cf.IgnoreErr) != 1 || (cf.IgnoreErr[0] != "(" && cf.IgnoreErr[0] != "[" && cf.IgnoreErr[0] != "*") {
 			jobs = append(jobs, job{cf, "json"})
 		}
 	}
@@ -451,7 +464,7 @@ func runC17(c *Ctx) {
 			b = bv
 		}
 		got, ws, err := c17Observe(c, files, j.mode, cf, fmt.Sprintf("c17j%d", ji))
-		invalidPat := cf.IgnoreErr != nil && (cf.IgnoreErr[0] == "(" || cf.IgnoreErr[0] == "[" || cf.IgnoreErr[0] == "*")
+		invalidPat := len(cf.IgnoreErr) == 1 && (cf.IgnoreErr[0] == "(" || cf.IgnoreErr[0] == "[" || cf.IgnoreErr[0] == "*")
 		if err != nil {
 			c.Report(fmt.Sprintf("server-down|%s|invalid-pattern=%v", j.mode, invalidPat), fmt.Sprintf("configuration %s delivered via %s took the server down: %v", cf.Label, j.mode, err), map[string]interface{}{"conf": cf, "mode": j.mode})
 			return
@@ -504,7 +517,7 @@ func runC17(c *Ctx) {
 	c.Sample(map[string]interface{}{"conf": confs[0], "modes": []string{"init", "change", "json"}})
 	c.Sample(map[string]interface{}{"conf": confs[len(confs)-20]})
 	c.Finish("a zoo workspace (6 files in 4 directories) that triggers diagnostic types 1-10 and 12-21 (22, 26 in config-file mode) in several files; configurations: each single "+
-		"flag off, each single flag on, random subsets, master off, error-ignore patterns (file, folder, fixed and generated regular expressions ending in `\\.lua`, `.lua`, `lua` or nothing, non-matching, invalid) analysis-ignore patterns, and (luahelper.json) one to three per-file type rules naming different types for different files; each "+
+		"flag off, each single flag on, random subsets, master off, error-ignore patterns (file, folder, fixed and generated regular expressions ending in `\\.lua`, `.lua`, `lua` or nothing, non-matching, invalid, and lists of two or three rules in which malformed rules precede or follow well-formed ones) analysis-ignore patterns, and (luahelper.json) one to three per-file type rules naming different types for different files; each "+
 		"delivered as init options, as a later didChangeConfiguration and as luahelper.json; the published view must equal the all-enabled view of the same delivery mode "+
 		"filtered by the configuration. distinct_nontrivial = distinct (mode, configuration) pairs whose view matched exactly", 30)
 }
